@@ -134,6 +134,7 @@ func runC10(c *fw.Ctx) {
 		{Kind: "Compose", Bucket: "b", Name: "x", Srcs: []GSrc{{Name: "y"}, {Name: "y"}}, Meta: gcs.ObjMeta{ContentType: "text/composed"}},
 		{Kind: "Copy", Bucket: "b", Name: "y", DstBucket: "b", DstName: "x"},
 		{Kind: "Copy", Bucket: "b", Name: "x", DstBucket: "b", DstName: "y"},
+		{Kind: "Copy", Bucket: "b", Name: "x", DstBucket: "b", DstName: "x"}, // onto itself: still a content write of the destination
 		P("x", `{"metadata":{"a":"1"}}`),
 		P("x", `{"contentType":"text/patched"}`),
 		P("x", `{"cacheControl":"no-store","contentDisposition":"attachment","contentLanguage":"en","metadata":{"k":"w"}}`),
